@@ -498,11 +498,11 @@ impl MultiLineWriter {
             // envelope: an empty metric with a terminator as long as the whole buffer is excluded (DESIGN C05)
             !(buf@.len() == 0 && old(self).ending().len() == old(self).cap()),
         ensures
-            final(self).inv(),                                         // [C05 C06 C07] write preserves the representation invariant
+            final(self).inv(),                                         // [C05 C06 C07 C13] write preserves the representation invariant
             final(self).cap() == old(self).cap(),                      // [C05] capacity never changes
             final(self).ending() == old(self).ending(),                // [C05] terminator never changes
             final(self).counters_ok_after(*old(self)),
-            log_extends_ok(old(self).wire(), final(self).wire(), old(self).ending(), old(self).cap()),  // [C05] every datagram sent during an emit is whole metrics+terminators within capacity, or one oversized metric alone
+            log_extends_ok(old(self).wire(), final(self).wire(), old(self).ending(), old(self).cap()),  // [C05 C13] every datagram sent during an emit is whole metrics+terminators within capacity, or one oversized metric alone
             r matches Ok(n) ==> n == buf@.len(),                       // [C06] Ok carries the metric's byte length
             r.is_ok() ==> final(self).last_err() == old(self).last_err(),
             r matches Err(e) ==> final(self).last_err() == Some(e),    // [C07] an error returned by emit is the socket's own error
@@ -529,15 +529,15 @@ impl MultiLineWriter {
             old(self).inv(),
             old(self).counters_ok(),
         ensures
-            final(self).inv(),                                         // [C05 C06 C07] flush preserves the representation invariant
+            final(self).inv(),                                         // [C05 C06 C07 C13] flush preserves the representation invariant
             final(self).cap() == old(self).cap(),                      // [C05] capacity never changes
             final(self).ending() == old(self).ending(),                // [C05] terminator never changes
             final(self).counters_flush(*old(self)),
-            log_extends_ok(old(self).wire(), final(self).wire(), old(self).ending(), old(self).cap()),  // [C05] the datagram sent by flush is whole metrics+terminators within capacity
+            log_extends_ok(old(self).wire(), final(self).wire(), old(self).ending(), old(self).cap()),  // [C05 C13] the datagram sent by flush is whole metrics+terminators within capacity
             r.is_ok() ==> final(self).pending() == Seq::<Seq<u8>>::empty(),    // [C06] after a successful flush nothing remains buffered
             r.is_ok() ==> final(self).buffered() == 0,                         // (helper: the byte counter restarts; write relies on it)
             r.is_err() ==> final(self).buffered() == old(self).buffered(),     // (helper)
-            r.is_ok() ==> final(self).wire() == (if old(self).pending().len() > 0 { old(self).wire().push(old(self).pending()) } else { old(self).wire() }),  // [C06] flush sends exactly the pending metrics, once, in order, as one datagram; with nothing pending it sends nothing
+            r.is_ok() ==> final(self).wire() == (if old(self).pending().len() > 0 { old(self).wire().push(old(self).pending()) } else { old(self).wire() }),  // [C06 C13] flush sends exactly the pending metrics, once, in order, as one datagram (what remains is sent when flushed); with nothing pending it sends nothing
             r.is_ok() ==> final(self).last_err() == old(self).last_err(),
             step_flush(old(self).absview(), r.is_ok(), final(self).absview()),     // [C06 C07] flush is one step of the abstract transition relation consumed by the history lemmas
             r.is_err() ==> final(self).pending() == old(self).pending(),     // [C07] failed flush keeps everything buffered
